@@ -213,6 +213,21 @@ func runFiletree(seed int64, histories, steps int, out *Emitter) {
 				if r.Intn(10) == 0 {
 					acct = crafted()
 				}
+				if o := ownerOf(f); o != "" && r.Intn(3) == 0 {
+					// someone else with (or without) rights on the entry itself names the owner's account
+					acct, path = hexHash(o), f.Address
+					var eds []string
+					for _, a := range actors {
+						if ok, _ := ftkeeper.HasEditAccess(f, a); ok && a != o {
+							eds = append(eds, a)
+						}
+					}
+					if len(eds) > 0 && r.Intn(4) > 0 {
+						creator = eds[r.Intn(len(eds))]
+					} else {
+						creator = actors[r.Intn(len(actors))]
+					}
+				}
 				msg = &fttypes.MsgDeleteFile{Creator: creator, HashPath: path, Account: acct}
 				op = map[string]interface{}{"deleteFile": map[string]interface{}{"creator": creator, "hashPath": path, "account": acct}}
 			case k < 60:
